@@ -586,6 +586,98 @@ def _zero_index(n):
     return isinstance(n, ast.Subscript) and isinstance(n.slice, ast.Constant) and n.slice.value == 0
 
 
+def check_scalar_view(ctx, rule='R-SCALARVIEW'):
+    """an element taken from a one-dimensional array by one integer index is a numpy scalar, and scalars are in machine byte order
+    whatever the array's was: re-interpreting it with .view('>..') / .view('<..') swaps the bytes on one of the two kinds of machine.
+    The reinterpretation has to name no byte order (or be applied to a slice, which keeps the array's own)."""
+    ctx.rule(rule, 'readers: a single element of a flat map is never re-interpreted with an explicit byte order (scalars are in machine order)')
+    src = ctx.src
+    n = 0
+    for rp in sorted(src.relpaths()):
+        if not (rp.startswith(CAMX) and rp.endswith('Memmap.py')):
+            continue
+        m = src.mod(rp)
+        for q, fn in sorted(m.functions.items()):
+            flat = set()
+            for st in iter_stmts(fn.body):
+                if isinstance(st, ast.Assign) and isinstance(st.value, ast.Call) and (dotted(st.value.func) or '').split('.')[-1] == 'memmap' and kw(st.value, 'shape') is None \
+                        and len(st.value.args) < 5:
+                    flat.add(norm(st.targets[0]))
+            if not flat:
+                continue
+            for st in iter_stmts(fn.body):
+                for c in walk_expr(st):
+                    if not (isinstance(c, ast.Call) and isinstance(c.func, ast.Attribute) and c.func.attr == 'view' and c.args):
+                        continue
+                    base = c.func.value
+                    if not (isinstance(base, ast.Subscript) and norm(base.value) in flat):
+                        continue
+                    idx = base.slice
+                    scalar = isinstance(idx, ast.Constant) and isinstance(idx.value, int) or \
+                        (isinstance(idx, ast.UnaryOp) and isinstance(idx.operand, ast.Constant) and isinstance(idx.operand.value, int))
+                    if not scalar:
+                        continue
+                    n += 1
+                    code = const_str(c.args[0])
+                    where = 'src/PseudoNetCDF/%s %s' % (rp, q)
+                    if code is None:
+                        ctx.undec(rule, 'view of %s' % norm(base), where, 'type code is not a literal')
+                    elif code[:1] in '<>':
+                        ctx.violation(Finding(rule, rp, q, c, "%s is one element of the flat map (a scalar, already in machine byte order); .view('%s') forces a byte order and swaps the bytes on a "
+                                              'machine of the other kind: the value (and every header the writer fills from it) changes' % (norm(base), code)))
+                    else:
+                        ctx.ok(rule, 'view of %s' % norm(base), where, "'%s' names no byte order" % code)
+    return n
+
+
+def check_sized_text(ctx, rule='R-SIZEDTEXT'):
+    """a writer that sizes a record from len(<file>.ATTR) and writes ATTR as it is relies on the reader keeping the text of the field
+    unchanged: stripping blanks (or any other edit of the decoded text) shortens the record of the re-written file."""
+    ctx.rule(rule, 'a text attribute whose length sizes a record of the writer is stored by the reader as decoded (no strip/replace/split)')
+    src = ctx.src
+    n = 0
+    edits = ('strip', 'rstrip', 'lstrip', 'replace', 'split', 'upper', 'lower', 'title', 'ljust', 'rjust', 'center', 'expandtabs')
+    for rp in sorted(src.relpaths()):
+        if not (rp.startswith(CAMX) and rp.endswith('Write.py')):
+            continue
+        m = src.mod(rp)
+        for q, fn in sorted(m.functions.items()):
+            if not q.startswith('ncf2') or '.' in q or not fn.args.args:
+                continue
+            fparam = fn.args.args[0].arg
+            attrs = set()
+            for st in iter_stmts(fn.body):
+                for c in walk_expr(st):
+                    if isinstance(c, ast.Call) and dotted(c.func) == 'len' and c.args and isinstance(c.args[0], ast.Attribute) and norm(c.args[0].value) == fparam:
+                        attrs.add(c.args[0].attr)
+            if not attrs:
+                continue
+            rrp = rp[:-len('Write.py')] + 'Memmap.py'
+            if rrp not in src.relpaths():
+                continue
+            rmod = src.mod(rrp)
+            for a in sorted(attrs):
+                stores = []
+                for rq, rfn in sorted(rmod.functions.items()):
+                    for st in iter_stmts(rfn.body):
+                        if isinstance(st, ast.Assign) and any(isinstance(t, ast.Attribute) and t.attr == a and norm(t.value) == 'self' for t in st.targets):
+                            stores.append((rq, st))
+                        elif isinstance(st, ast.Expr) and isinstance(st.value, ast.Call) and (dotted(st.value.func) or '').split('.')[-1] in ('setncattr', 'setattr') and \
+                                any(const_str(x) == a for x in st.value.args[:2]):
+                            stores.append((rq, st))
+                for rq, st in stores:
+                    n += 1
+                    val = st.value if isinstance(st, ast.Assign) else st.value.args[-1]
+                    bad = [c for c in walk_expr(val) if isinstance(c, ast.Call) and isinstance(c.func, ast.Attribute) and c.func.attr in edits]
+                    where = 'src/PseudoNetCDF/%s %s' % (rrp, rq)
+                    if bad:
+                        ctx.violation(Finding(rule, rrp, rq, st, 'the writer sizes a record from len(%s.%s) and writes the text as it is; the reader edits the decoded field (.%s()): a padded '
+                                              'text comes back shorter and the re-written record (and everything after it) moves' % (fparam, a, bad[0].func.attr)))
+                    else:
+                        ctx.ok(rule, 'self.%s' % a, where, 'decoded field stored without editing; writer %s sizes the record from its length' % q)
+    return n
+
+
 def check_one_step(ctx, rule='R-ONESTEP'):
     """The statement quantifies over files of 1..n time steps.  The memory-mapped met readers find the number of records per time step
     by looking for the first record whose (time, date) identifier differs from that of record 0.  In a single-step file there is no
@@ -645,6 +737,14 @@ def check_one_step(ctx, rule='R-ONESTEP'):
                             ctx.ok(rule, '%s:while %s' % (fmt, norm(t_)), where, 'counting loop: %s equals its bound %s when no record differs' % (cn, norm(t_.comparators[0])))
                     continue
                 if not isinstance(st, ast.Assign):
+                    continue
+                # (e) records // <number of distinct stamps or stamp changes + 1>: one stamp for a single-step file, so the quotient is the
+                # record count (whether such a whole-table statistic is acceptable for cut files is C14's R-FIRSTSTEP, not this rule's)
+                if any(isinstance(b_, ast.BinOp) and isinstance(b_.op, (ast.FloorDiv, ast.Div)) and 'record' in norm(b_.left) and
+                       any(isinstance(c_, ast.Call) and ((dotted(c_.func) or getattr(c_.func, 'attr', '') or '').split('.')[-1] in ('unique', 'sum', 'count_nonzero')) for c_ in ast.walk(b_.right))
+                       for b_ in ast.walk(st.value)):
+                    n += 1
+                    ctx.ok(rule, '%s:%s' % (fmt, norm(st.targets[0])), where, 'records // number of stamps: the record count for a single-step file')
                     continue
                 # (c) argmax of the comparison: 0 when no record differs
                 hit_c = False
@@ -950,9 +1050,34 @@ def check_landuse(ctx):
     wb = dict((k, v) for k, v in local_bindings(wfn).items())
     wenv, renv = _dim_env(wfn, 'ncffile'), _dim_env(rfn, 'self')
     nfound = 0
+    # the style flag: the writer asks the file object for an attribute (default: new style); the reader has to record the style under
+    # exactly that name - an attribute spelled with two leading underscores inside the class is stored under a mangled name
+    ctx.rule('R-STYLEFLAG', 'land-use: the reader records the file style under the attribute name the writer asks for')
+    wflag = None
+    for st in iter_stmts(wfn.body):
+        if isinstance(st, ast.Assign) and isinstance(st.targets[0], ast.Name) and isinstance(st.value, ast.Call) and dotted(st.value.func) == 'getattr' and len(st.value.args) >= 2 \
+                and const_str(st.value.args[1]) and 'style' in const_str(st.value.args[1]):
+            wflag = (st.targets[0].id, const_str(st.value.args[1]), st)
+    rflags = {}
+    for st in iter_stmts(rfn.body):
+        if isinstance(st, ast.Assign) and isinstance(st.targets[0], ast.Attribute) and isinstance(st.targets[0].value, ast.Name) and st.targets[0].value.id == 'self' \
+                and isinstance(st.value, ast.Constant) and isinstance(st.value.value, bool):
+            rflags.setdefault(st.targets[0].attr, set()).add(st.value.value)
+    rflag = [a for a, vals in rflags.items() if vals == set([True, False])]
+    rname = 'self.' + (rflag[0] if rflag else '_newstyle')
+    wname = wflag[0] if wflag else 'newstyle'
+    if wflag is None or not rflag:
+        ctx.undec('R-STYLEFLAG', 'style flag', where, 'writer lookup / reader flag not found')
+    elif rflag[0] == wflag[1] and not rflag[0].startswith('__'):
+        ctx.ok('R-STYLEFLAG', 'style flag', where, "reader sets self.%s, writer reads getattr(ncffile, '%s', ...)" % (rflag[0], wflag[1]))
+    else:
+        ctx.violation(Finding('R-STYLEFLAG', rm.relpath, 'landuse.__init__', [st for st in iter_stmts(rfn.body) if isinstance(st, ast.Assign) and isinstance(st.targets[0], ast.Attribute)
+                                                                                and st.targets[0].attr == rflag[0]][0],
+                              "the reader records the style as self.%s%s but the writer asks for getattr(ncffile, '%s', <new style>): an old-style file is always re-written in the new style (keyed "
+                              'records, other variable name)' % (rflag[0], ' (stored under a mangled name)' if rflag[0].startswith('__') else '', wflag[1])))
     for tag, pol in (('new', True), ('old', False)):
-        wl = layouts_for(wfn, 'newstyle', pol, wb, wenv)
-        rl = layouts_for(rfn, 'self._newstyle', pol, {}, renv)
+        wl = layouts_for(wfn, wname, pol, wb, wenv)
+        rl = layouts_for(rfn, rname, pol, {}, renv)
         for k in ('fland_dtype', 'other_dtype'):
             if k not in wl or k not in rl:
                 raise AnalysisError('construct not understood: landuse %s %s' % (tag, k))
@@ -1092,6 +1217,8 @@ def run(ctx):
     ctx.floor('emission sites examined for byte order', check_byteorder(ctx), 40)
     check_one_step(ctx)
     check_dead_carry(ctx)
+    ctx.floor('single elements of flat maps re-interpreted', check_scalar_view(ctx), 1)
+    ctx.floor('text attributes sizing a record', check_sized_text(ctx), 1)
     check_landuse(ctx)
     check_api(ctx, ctx.tier)
     ctx.assumptions += ['byte order is ignored when layouts are compared (readers default to big endian, writers spell it)',
